@@ -3,7 +3,7 @@ CONSTANTS
   RealPts <- PtsSigned
   Leaves <- L_Leaves
   MaxLeaves = 3
-  MaxOps = 3
+  MaxOps = 2
   UnOps <- L_UnOps
   BinOps <- L_BinOps
   ConOps <- L_ConOps
